@@ -1,8 +1,8 @@
 SPECIFICATION Spec
 CONSTANTS
-  Kinds = {"value", "word", "aview", "sview", "sptr", "aptr", "ptr", "pptr", "sp", "wp"}
-  Kinds2 = {"ptr", "aview", "sview"}
+  Kinds = {"value", "word", "aview", "sview", "sptr", "aptr", "ptr", "pptr", "sp", "wp", "tp", "asp"}
+  Kinds2 = {"ptr"}
   MaxForm2 = 2
-  Fuel = 400
+  Fuel = 600
 INVARIANTS Legality Monitors NonInterference EmitCase
 CHECK_DEADLOCK FALSE
